@@ -21,6 +21,7 @@ type Solver struct {
 	levels  [][]string // mirrored commands per push level
 	prelude string
 	timeout int // ms per check
+	qlv     [][]*Term // quantified assumptions per level
 	// statistics
 	Checks    int
 	TimeBy    map[string]float64
@@ -55,6 +56,7 @@ func (s *Solver) start() error {
 	s.in = in
 	s.out = bufio.NewReaderSize(out, 1<<20)
 	s.levels = [][]string{nil}
+	s.qlv = [][]*Term{nil}
 	s.declLevel = []map[string]bool{{}}
 	s.raw(s.prelude)
 	return nil
@@ -85,12 +87,16 @@ func (s *Solver) send(c string) {
 func (s *Solver) Push() {
 	s.raw("(push 1)")
 	s.levels = append(s.levels, nil)
+	s.qlv = append(s.qlv, nil)
 	s.declLevel = append(s.declLevel, map[string]bool{})
 }
 func (s *Solver) Pop() {
 	s.raw("(pop 1)")
 	s.levels = s.levels[:len(s.levels)-1]
 	s.declLevel = s.declLevel[:len(s.declLevel)-1]
+	if len(s.qlv) > 0 {
+		s.qlv = s.qlv[:len(s.qlv)-1]
+	}
 }
 func (s *Solver) Depth() int { return len(s.levels) }
 
@@ -128,6 +134,87 @@ func (s *Solver) Assert(t *Term) {
 		return
 	}
 	s.send("(assert " + t.String() + ")")
+	if hasForall(t) {
+		s.qlv[len(s.qlv)-1] = append(s.qlv[len(s.qlv)-1], t)
+	}
+}
+
+func hasForall(t *Term) bool {
+	switch t.Op {
+	case "forall":
+		return true
+	case "and":
+		for _, a := range t.Args {
+			if hasForall(a) {
+				return true
+			}
+		}
+	case "=>":
+		return hasForall(t.Args[1])
+	}
+	return false
+}
+
+// instancesAt instantiates the universally quantified Int-indexed hypotheses
+// of the current path at the given ground index terms (DESIGN appendix, item
+// 9): consequences of facts already assumed, so adding them is sound; they
+// make proofs independent of the e-matching order of the solver.
+func (s *Solver) instancesAt(sks []*Term) []*Term {
+	var out []*Term
+	seen := map[*Term]bool{}
+	var inst func(t *Term) []*Term
+	inst = func(t *Term) []*Term {
+		switch t.Op {
+		case "and":
+			var r []*Term
+			for _, a := range t.Args {
+				if hasForall(a) {
+					r = append(r, inst(a)...)
+				}
+			}
+			return r
+		case "=>":
+			var r []*Term
+			for _, x := range inst(t.Args[1]) {
+				r = append(r, Implies(t.Args[0], x))
+			}
+			return r
+		case "forall":
+			for _, b := range t.Bind {
+				if b.S != SInt {
+					return nil
+				}
+			}
+			var r []*Term
+			switch len(t.Bind) {
+			case 1:
+				for _, k := range sks {
+					r = append(r, Subst(t.Args[0], map[*Term]*Term{t.Bind[0]: k}))
+				}
+			case 2:
+				if len(sks) <= 4 {
+					for _, k := range sks {
+						for _, l := range sks {
+							r = append(r, Subst(t.Args[0], map[*Term]*Term{t.Bind[0]: k, t.Bind[1]: l}))
+						}
+					}
+				}
+			}
+			return r
+		}
+		return nil
+	}
+	for _, lv := range s.qlv {
+		for _, t := range lv {
+			for _, x := range inst(t) {
+				if !seen[x] && x != TTrue && len(out) < 400 {
+					seen[x] = true
+					out = append(out, x)
+				}
+			}
+		}
+	}
+	return out
 }
 
 func (s *Solver) readLine() string {
@@ -213,11 +300,11 @@ func (s *Solver) Feasible() bool {
 	return r != "unsat"
 }
 
-// Prove: check that goal follows from the current stack. wantModel: fetch a
-// model on sat.
-func (s *Solver) Prove(goal *Term, vals []*Term) CheckResult {
+// primary runs the goal on the live process; the stand-alone script of the
+// query is returned when it is not discharged.
+func (s *Solver) primary(goal *Term) (CheckResult, string) {
 	if goal == TTrue {
-		return CheckResult{Res: "unsat", By: "simplifier"}
+		return CheckResult{Res: "unsat", By: "simplifier"}, ""
 	}
 	s.Push()
 	neg := "(assert (not " + goal.String() + "))"
@@ -225,11 +312,6 @@ func (s *Solver) Prove(goal *Term, vals []*Term) CheckResult {
 	t0 := time.Now()
 	r, detail := s.checkRaw(s.timeout)
 	cr := CheckResult{Res: r, By: "z3-new", Detail: detail}
-	if r == "sat" || r == "unknown" {
-		if len(vals) > 0 {
-			cr.Model = s.getValues(vals)
-		}
-	}
 	cr.Secs = time.Since(t0).Seconds()
 	s.TimeBy["z3-new"] += cr.Secs
 	s.Checks++
@@ -238,38 +320,58 @@ func (s *Solver) Prove(goal *Term, vals []*Term) CheckResult {
 		script = s.Script(neg)
 	}
 	s.Pop()
-	if r == "unknown" || r == "error" {
-		// race the other solvers on the stand-alone script
-		for _, alt := range []struct{ name, bin string; args []string }{
-			{"z3-new/default-config", "z3-new", []string{"-smt2", "-in", fmt.Sprintf("-T:%d", (s.timeout+999)/1000)}},
-			{"z3-4.8.12", "/usr/bin/z3", []string{"-smt2", "-in", fmt.Sprintf("-T:%d", (s.timeout+999)/1000)}},
-			{"cvc5", "cvc5", []string{"--lang=smt2", fmt.Sprintf("--tlimit=%d", s.timeout)}},
-		} {
-			t1 := time.Now()
-			res := runScript(alt.bin, alt.args, adaptScript(alt.name, script))
-			d := time.Since(t1).Seconds()
-			s.TimeBy[alt.name] += d
-			if res == "unsat" {
-				return CheckResult{Res: "unsat", By: alt.name, Secs: cr.Secs + d}
-			}
-			if res == "sat" && alt.name != "cvc5" && cr.Res != "sat" {
-				cr.Res = "sat"
-				cr.By = alt.name
-			}
+	return cr, script
+}
+
+// fallbacks runs the other solvers on the stand-alone script; the last one is
+// the first solver again with three times the time limit, so that a machine
+// under load does not turn a slow proof into an alarm.
+func (s *Solver) fallbacks(script string, cr CheckResult) CheckResult {
+	for _, alt := range []struct {
+		name, bin string
+		args      []string
+	}{
+		{"z3-new/default-config", "z3-new", []string{"-smt2", "-in", fmt.Sprintf("-T:%d", (s.timeout+999)/1000)}},
+		{"z3-4.8.12", "/usr/bin/z3", []string{"-smt2", "-in", fmt.Sprintf("-T:%d", (s.timeout+999)/1000)}},
+		{"cvc5", "cvc5", []string{"--lang=smt2", fmt.Sprintf("--tlimit=%d", s.timeout)}},
+		{"z3-new/default-config/3x", "z3-new", []string{"-smt2", "-in", fmt.Sprintf("-T:%d", 3*(s.timeout+999)/1000)}},
+		{"z3-new/3x", "z3-new", []string{"-smt2", "-in", fmt.Sprintf("-T:%d", 3*(s.timeout+999)/1000)}},
+	} {
+		t1 := time.Now()
+		res := runScript(alt.bin, alt.args, adaptScript(alt.name, script))
+		d := time.Since(t1).Seconds()
+		s.TimeBy[alt.name] += d
+		if res == "unsat" {
+			return CheckResult{Res: "unsat", By: alt.name}
+		}
+		if res == "sat" && alt.name != "cvc5" && cr.Res != "sat" {
+			cr.Res = "sat"
+			cr.By = alt.name
 		}
 	}
+	return cr
+}
+
+// Prove: check that goal follows from the current stack.
+func (s *Solver) Prove(goal *Term, vals []*Term) CheckResult {
+	t0 := time.Now()
+	cr, script := s.primary(goal)
+	if cr.Res == "unknown" || cr.Res == "error" {
+		cr = s.fallbacks(script, cr)
+	}
 	if cr.Res != "unsat" {
-		cr.Detail = detail
-		cr.Model = cr.Model + ""
 		lastScript = script
 	}
+	cr.Secs = time.Since(t0).Seconds()
 	return cr
 }
 
 var lastScript string
 
 func adaptScript(name, script string) string {
-	script = strings.Replace(script, "(set-option :smt.auto-config false)\n", "", 1)
+	if name != "z3-new/3x" {
+		script = strings.Replace(script, "(set-option :smt.auto-config false)\n", "", 1)
+	}
 	if name == "cvc5" {
 		return "(set-logic ALL)\n" + script
 	}
